@@ -352,6 +352,28 @@ async fn reader_view(arch: &[u8]) -> Value {
     }
 }
 
+/// an output that takes what it likes: at most 100 / 1 / 4096 / 7 / ... bytes per write call (a socket, a pipe, a rate-limited writer);
+/// `write_all` copes, a bare `write` does not
+struct ShortSink {
+    buf: Vec<u8>,
+    n: usize,
+}
+impl tokio::io::AsyncWrite for ShortSink {
+    fn poll_write(mut self: std::pin::Pin<&mut Self>, _cx: &mut std::task::Context<'_>, b: &[u8]) -> std::task::Poll<std::io::Result<usize>> {
+        let lim = [100usize, 1, 4096, 7, 65536, 13][self.n % 6];
+        self.n += 1;
+        let k = b.len().min(lim);
+        self.buf.extend_from_slice(&b[..k]);
+        std::task::Poll::Ready(Ok(k))
+    }
+    fn poll_flush(self: std::pin::Pin<&mut Self>, _cx: &mut std::task::Context<'_>) -> std::task::Poll<std::io::Result<()>> {
+        std::task::Poll::Ready(Ok(()))
+    }
+    fn poll_shutdown(self: std::pin::Pin<&mut Self>, _cx: &mut std::task::Context<'_>) -> std::task::Poll<std::io::Result<()>> {
+        std::task::Poll::Ready(Ok(()))
+    }
+}
+
 async fn lib_compress(conf: &Conf, nbuf: usize, script: Vec<i64>) -> Result<Vec<u8>, String> {
     let opts = CreateArchiveOptions {
         chunker_config: conf.chunker_config(),
@@ -363,10 +385,18 @@ async fn lib_compress(conf: &Conf, nbuf: usize, script: Vec<i64>) -> Result<Vec<
     };
     let data = Arc::new(conf.data.clone());
     let h = tokio::spawn(async move {
-        let mut out: Vec<u8> = vec![];
+        // the archive goes into memory in one piece per write, or (odd buffering levels, scripted reads) into a sink with short writes
+        let short = nbuf % 2 == 1 || !script.is_empty();
         let src = ScriptedSource::new(data, script);
-        let r = create_archive(src, &mut out, &opts).await;
-        r.map(|_| out).map_err(|e| format!("{}", e))
+        if short {
+            let mut out = ShortSink { buf: vec![], n: 0 };
+            let r = create_archive(src, &mut out, &opts).await;
+            r.map(|_| out.buf).map_err(|e| format!("{}", e))
+        } else {
+            let mut out: Vec<u8> = vec![];
+            let r = create_archive(src, &mut out, &opts).await;
+            r.map(|_| out).map_err(|e| format!("{}", e))
+        }
     });
     match h.await {
         Ok(r) => r,
@@ -379,10 +409,14 @@ where
     R: bitar::archive_reader::ArchiveReader + Send + 'static,
     R::Error: std::error::Error + Send,
 {
-    let _ = nbuf;
     let h = tokio::spawn(async move {
         let mut archive = Archive::try_init(reader).await.map_err(|e| format!("open: {}", e))?;
-        let mut output = CloneOutput::new(std::io::Cursor::new(Vec::<u8>::new()), archive.build_source_index());
+        // where the handle stands when it is handed over is not part of the contract (an updater may have read the old image to its end):
+        // every other clone gets an output that holds 777 other bytes and is positioned behind them
+        let pre = if nbuf % 2 == 0 { 777usize } else { 0 };
+        let mut cur = std::io::Cursor::new(vec![0x5Au8; pre]);
+        cur.set_position(pre as u64);
+        let mut output = CloneOutput::new(cur, archive.build_source_index());
         let total = archive.total_source_size() as usize;
         {
             let mut stream = archive.chunk_stream(output.chunks());
